@@ -13,7 +13,7 @@ from ..spec import spec_from_scenario, EXPLOIT, PRIVESC, SUB_SCAN
 from ..verdict import Acc
 
 SIZES = {"quick": dict(n_random=6000, bench_seeds=20, n_solve=2400),
-         "thorough": dict(n_random=120000, bench_seeds=100, n_solve=40000)}
+         "thorough": dict(n_random=900000, bench_seeds=100, n_solve=300000)}
 BUDGET = 3_000_000
 
 
